@@ -49,6 +49,8 @@ type c16Scenario struct {
 	// health
 	PoolNodes  int    `json:"poolNodes,omitempty"`
 	Unhealthy  int    `json:"unhealthy,omitempty"` // other unhealthy nodes in the pool
+	// UnhealthyTerminating: how many of those other unhealthy nodes are already being deleted (still in the pool, still unhealthy)
+	UnhealthyTerminating int `json:"unhealthyTerminating,omitempty"`
 	Condition  string `json:"condition,omitempty"` // which policy condition the target node shows: ready-false | badnode-true | both | none
 	Standalone bool   `json:"standalone,omitempty"`
 	SecondOff  int    `json:"secondOffsetSec,omitempty"`
@@ -77,6 +79,7 @@ func drawC16(t *rapid.T) *c16Scenario {
 	case "health":
 		s.PoolNodes = rapid.IntRange(1, 8).Draw(t, "poolNodes")
 		s.Unhealthy = rapid.IntRange(0, s.PoolNodes-1).Draw(t, "unhealthy")
+		s.UnhealthyTerminating = rapid.IntRange(0, s.Unhealthy).Draw(t, "unhealthyTerminating")
 		s.Condition = rapid.SampledFrom([]string{"ready-false", "ready-false", "badnode-true", "both", "none"}).Draw(t, "condition")
 		s.Standalone = rapid.IntRange(0, 4).Draw(t, "standalone") == 0
 		s.SecondOff = rapid.SampledFrom(append([]int{-1500, 1500, -900, 900}, c16Offsets...)).Draw(t, "secondOffset")
@@ -335,7 +338,15 @@ func runC16(s *c16Scenario, faultIdx int) *c16Run {
 		w.Apply(target)
 		// the rest of the pool (or of the cluster for a standalone claim)
 		for i := 1; i < s.PoolNodes; i++ {
-			w.Apply(c16Node(fmt.Sprintf("node-%d", i), fmt.Sprintf("sim://zone-a/other-%d", i), poolName, i > s.Unhealthy, now.Add(-time.Hour)))
+			on := c16Node(fmt.Sprintf("node-%d", i), fmt.Sprintf("sim://zone-a/other-%d", i), poolName, i > s.Unhealthy, now.Add(-time.Hour))
+			if i <= s.UnhealthyTerminating {
+				// repaired / expired a moment ago: terminating, held by its finalizer while it drains
+				on.Finalizers = []string{v1.TerminationFinalizer}
+			}
+			w.Apply(on)
+			if i <= s.UnhealthyTerminating {
+				w.Quiet(func() { _ = w.Client.Delete(w.Ctx, on) })
+			}
 		}
 		ctrl := health.NewController(w.Client, w.Provider, w.Clock, w.Recorder)
 		cur := &corev1.Node{}
